@@ -47,6 +47,11 @@ def check(ctx, fm, idx):
             Y = np.array([[rng.randint(-8, 8) / 2 for _ in range(m)] for _ in range(batch)]) @ B.T[:, S]
         else:
             Y = np.zeros((batch, ns))
+        if kind != "zero" and rng.random() < 0.2:
+            # the units of the measurements are arbitrary: reconstruction is homogeneous (powers of two keep everything exact)
+            e = rng.choice([-60, -40, -30, -27, 30, 60])
+            Y = Y * 2.0 ** e
+            ctx.count("meas_scaled_2^%d" % e)
         ctx.evaluations += 1
         ctx.count("relation:" + ("below" if ns < m else "equal" if ns == m else "above"))
         ctx.count("meas:" + kind)
@@ -78,64 +83,72 @@ def check(ctx, fm, idx):
         if not np.all(np.isfinite(P)) or not kap < recon.KAPPA_HARD or not full:
             ctx.count("skipped_numeric(ill-conditioned or rank-deficient sensor rows)")
             continue
-        scale = 1 + float(np.max(np.abs(Y))) * (1 + float(np.max(np.abs(B))))
-        # backward-stable solvers: error ≤ c·eps·(κ + κ²·ρ), ρ = relative least-squares residual (0 for consistent systems and
-        # for interpolation); ρ from an independent solve, never from the prediction under test.
-        # (first version: 1e-7·κ² with κ ≤ 1e6 – it could not see a solver that drops singular values below √eps)
-        if ns <= m:
-            rho = 0.0
-        else:
-            xs, *_ = np.linalg.lstsq(M, Y.T, rcond=None)
-            rho = float(np.max(np.abs(M @ xs - Y.T))) / (1 + float(np.max(np.abs(Y))))
-        tol = recon.BUD * scale * kap * (1 + kap * rho) * max(M.shape)
-        if tol > 5e-2 * scale:
-            ctx.count("skipped_numeric(budget too large to judge)")
-            continue
+        # Budgets, purely relative (nothing in a linear reconstruction singles out magnitude 1).  c* and ρ come from an
+        # independent solve, never from the prediction under test.
+        #  · BACKWARD quantities – what a backward-stable solver guarantees whatever the conditioning: the residual at the sensors
+        #    M·c − y (interpolation when n_sensors ≤ n_modes), the normal equations Mᵀ(M·c − y), membership of the span:
+        #    budget k·eps·(‖M‖·‖c*‖ + ‖y‖).
+        #  · FORWARD quantities – the reconstruction itself against the exact model, linearity: k·eps·κ(M)·(1 + κ(M)·ρ)·‖B‖·‖c*‖,
+        #    judged only while that is below 5 % of ‖B‖·‖c*‖.
+        # (first version: one tolerance 1e-7·(1+|y|)·κ², κ ≤ 1e6 – blind to a solver that drops singular values below √eps and,
+        #  through the "1 +", to anything that happens to tiny measurements)
+        cs, *_ = np.linalg.lstsq(M, Y.T, rcond=None)
+        cnorm = float(np.max(np.abs(cs))) if cs.size else 0.0
+        ymax = float(np.max(np.abs(Y)))
+        rho = 0.0 if (ns <= m or ymax == 0) else float(np.max(np.abs(M @ cs - Y.T))) / ymax
+        Mn, Bn = float(np.linalg.norm(M, 2)), float(np.linalg.norm(B, 2))
+        kdim = max(M.shape) * max(1, batch)
+        tol_back = recon.BUD * kdim * (Mn * cnorm + ymax)
+        rel = recon.BUD * kap * (1 + kap * rho) * kdim
+        forward_ok = rel <= 5e-2
+        tol = rel * Bn * cnorm
+        if not forward_ok:
+            ctx.count("forward_comparison_skipped(budget too large)")
         if kap > 1e6:
             ctx.count("judged_ill_conditioned(κ>1e6)")
         # span: P rows are B c for some c
         Cc, *_ = np.linalg.lstsq(B, P.T, rcond=None)
         span_res = float(np.max(np.abs(B @ Cc - P.T)))
-        if span_res > tol:
+        if span_res > recon.BUD * max(B.shape) * float(np.max(np.abs(P))) * max(1.0, recon.kappa(B)):
             ctx.violation("concrete", f"reconstruction is not in the span of the basis (residual {span_res:.3e})",
                           {"signature": "predict-not-in-span", **sig_base})
             return
-        # exact model (full row or column rank): least-squares / min-norm solution
-        Yq = [[C.frac(Y[b, s]) for b in range(batch)] for s in range(ns)]
-        R = recon.exact_predict(ctx, B, S, Yq) if (m <= 4 or desc["basis"] == "identity") else None
-        if R is not None:
-            ctx.impl_traces += 1
-            Rf = np.array([[float(R[i][b]) for i in range(n)] for b in range(batch)])
-            err = float(np.max(np.abs(Rf - P)))
-            if err > tol:
-                what = "exact interpolation" if ns <= m else "least-squares fit"
-                ctx.violation("concrete",
-                              f"reconstruction differs from the exact {what} by {err:.3e} (n_sensors={ns}, n_modes={m}, κ={kap:.1e})",
-                              {"signature": "predict-not-least-squares", **sig_base, "exact": [[str(v) for v in r] for r in R]})
-                return
-        else:
-            # normal equations at the sensors: Mᵀ(P[S] − Y) = 0
-            res = M.T @ (P[:, S].T - Y.T)
-            if float(np.max(np.abs(res))) > tol * (1 + float(np.max(np.abs(M)))):
-                ctx.violation("concrete", "normal equations at the selected sensors are violated",
-                              {"signature": "predict-normal-equations", **sig_base})
-                return
-        # interpolation when rows independent and no more numerous than modes
+        # residual at the sensors
         if ns <= m:
             ierr = float(np.max(np.abs(P[:, S] - Y)))
-            if ierr > tol:
-                ctx.violation("concrete", f"measurements at {ns} ≤ {m} independent sensors are not interpolated (error {ierr:.3e})",
+            if ierr > tol_back:
+                ctx.violation("concrete", f"measurements at {ns} ≤ {m} independent sensors are not interpolated (error {ierr:.3e}, κ={kap:.1e})",
                               {"signature": "predict-not-interpolating", **sig_base})
                 return
-        # linearity
-        if batch >= 2:
-            al, be = rng.choice([2, -1, 0.5]), rng.choice([1, 3, -0.25])
-            lhs = np.asarray(model.predict(al * Y[0] + be * Y[1]))
-            rhs = al * P[0] + be * P[1]
-            if float(np.max(np.abs(lhs - rhs))) > tol * 10:
-                ctx.violation("concrete", "predict is not linear in the measurements",
-                              {"signature": "predict-not-linear", **sig_base, "alpha": al, "beta": be})
+        else:
+            res = M.T @ (P[:, S].T - Y.T)
+            if float(np.max(np.abs(res))) > tol_back * Mn * (1 + kap * rho):
+                ctx.violation("concrete", f"normal equations at the selected sensors are violated (κ={kap:.1e})",
+                              {"signature": "predict-normal-equations", **sig_base})
                 return
+        # exact model (full row or column rank): least-squares / min-norm solution
+        if forward_ok:
+            Yq = [[C.frac(Y[b, s]) for b in range(batch)] for s in range(ns)]
+            R = recon.exact_predict(ctx, B, S, Yq) if (m <= 4 or desc["basis"] == "identity") else None
+            if R is not None:
+                ctx.impl_traces += 1
+                Rf = np.array([[float(R[i][b]) for i in range(n)] for b in range(batch)])
+                err = float(np.max(np.abs(Rf - P)))
+                if err > tol:
+                    what = "exact interpolation" if ns <= m else "least-squares fit"
+                    ctx.violation("concrete",
+                                  f"reconstruction differs from the exact {what} by {err:.3e} (n_sensors={ns}, n_modes={m}, κ={kap:.1e})",
+                                  {"signature": "predict-not-least-squares", **sig_base, "exact": [[str(v) for v in r] for r in R]})
+                    return
+            # linearity
+            if batch >= 2:
+                al, be = rng.choice([2, -1, 0.5]), rng.choice([1, 3, -0.25])
+                lhs = np.asarray(model.predict(al * Y[0] + be * Y[1]))
+                rhs = al * P[0] + be * P[1]
+                if float(np.max(np.abs(lhs - rhs))) > tol * 10:
+                    ctx.violation("concrete", "predict is not linear in the measurements",
+                                  {"signature": "predict-not-linear", **sig_base, "alpha": al, "beta": be})
+                    return
         if kind == "random" and ns != m:
             ctx.nontriv((desc["basis"], desc["opt"], (n, m), ns, batch))
         elif ns < m:
